@@ -190,6 +190,7 @@ class Prog:
             out.append(f"function {nm}({args}) result(res)")
         else:
             out.append(f"subroutine {nm}({args})")
+        out.extend("  " + ln for ln in getattr(hlp, "use_lines", []))
         for var in hlp.formals:
             assumed = None
             if var.dims and getattr(var, "assumed", False):
@@ -200,6 +201,7 @@ class Prog:
             out.append(f"  {base} :: res")
         for var in getattr(hlp, "locals", []):
             out.append("  " + var.decl(intent=False))
+        out.extend("  " + ln for ln in getattr(hlp, "decl_lines", []))
         out.extend("  " + ln for ln in hlp.lines)
         out.append(("end function " if hlp.is_function else "end subroutine ")
                    + nm)
